@@ -125,6 +125,15 @@ def r_norm_view(ctx: RuleCtx, col: Collector):
     loops = [n for n in ast.walk(resp.node) if isinstance(n, ast.For) and any(
         isinstance(x, ast.AugAssign) and isinstance(x.op, (ast.Mult, ast.Div)) for x in ast.walk(n))]
     if not loops:
+        # vectorised form: the whole matrix of eigenvectors is scaled in place by a vector of per-mode factors (Q *= s)
+        whole = [x for x in ast.walk(resp.node) if isinstance(x, ast.AugAssign) and isinstance(x.op, (ast.Mult, ast.Div))
+                 and norm(x.target) == qname]
+        if whole:
+            col.ok(where_of(resp), resp.rel, line_of(whole[0]), "normalisation loop ranges over all modes",
+                   f"'{stmt_key(whole[0])}' scales every column at once")
+            col.ok(where_of(resp), resp.rel, line_of(whole[0]), "eigenvectors scaled in place through a view of the returned matrix",
+                   stmt_key(whole[0]))
+            return
         raise AnalysisError("EigenSolve: no loop scaling the eigenvectors in place found")
     lp = loops[0]
     it = norm(lp.iter)
